@@ -282,6 +282,17 @@ example : rewireIsNoOp 2 (some 5) true [⟨2, .input 0 0⟩, ⟨0, .input 0 2⟩
 example : rewireOptimize [.other, .zero, .other] [some 7, some 3, some 7] [⟨2, .input 0 0⟩, ⟨0, .one⟩, ⟨3, .input 2 2⟩, ⟨2, .input 1 1⟩, ⟨1, .zero⟩]
     = ([⟨2, .input 0 0⟩, ⟨3, .input 0 2⟩, ⟨3, .zero⟩], [some 7]) := by decide
 
+/-- `removeConstSelectMuxes`, the decision itself: `constSelectBypass` models which data input the pass bypasses a multiplexer with a
+    constant selector to (zero-width constant: input 0; otherwise only a fully defined value that addresses an input), replayed against
+    the real pass on generated multiplexers (`what=removeConstSelectMuxes`); whenever it bypasses, the mux computes exactly the value at
+    that input. -/
+theorem removeConstSelectMuxes_function (w : Nat) (sel : BV4) (data : Ins) (k : Nat) (hne : data ≠ [])
+    (h : constSelectBypass sel data.length = some k) : evalMux w (some sel :: data) = copyIn w (data.getD k none) :=
+  constSelectBypass_sound w sel data k hne h
+
+example : constSelectBypass (BV4.ofNat 2 2) 3 = some 2 ∧ constSelectBypass (BV4.ofNat 2 3) 3 = none ∧ constSelectBypass [] 3 = some 0 ∧
+          constSelectBypass [B4.t, B4.x] 3 = none := by decide
+
 /-! ### insertConstUndefinedNodes / disconnectZeroBitConnections -/
 
 /-- `insertConstUndefinedNodes` (undriven signals and signal loops get an all-undefined `Node_Constant` of the signal's width) and
